@@ -20,7 +20,7 @@ func (c16) Runs(tier string) int {
 	if tier == "thorough" {
 		return 60000
 	}
-	return 360
+	return 200
 }
 func (c16) Rule() string {
 	return "per run a template tree (layout, components, pages that succeed / fail at run time, optional custom error page, debug on/off, custom functions) is generated and loaded on the simulated disk; an operation alphabet {String, Response (healthy / failing writer), EvaluateString, EvaluateFile (present / missing / EIO)} x {succeeding, failing, unknown name} is derived from it. Every fourth run sweeps ALL ordered pairs of the alphabet (exhaustive for length 2 on that tree), the others run seeded random histories of length 3..12. Oracle: each operation's observation equals the observation of the same operation issued first after a fresh reset + identical setup; caller data deep-equal to a private copy; after the history every page re-renders to its baseline. evaluations = operations executed inside histories. distinct_nontrivial = distinct histories (content hash) of length >= 2 that contain a failing operation or a string/file evaluation before a template render."
@@ -95,6 +95,8 @@ func treeAlphabet(r *Rng, t *Tree, extra []File) []Op {
 		Op{Kind: "evalstr", Src: "@each(x in nums){{ 100 / x }},@end", Data: mk([]string{"nums"}, Val{T: "ints", A: []Val{VInt(4), VInt(0)}})},
 		Op{Kind: "evalstr", Src: "@each(x in nums){{ 100 / x }},@end", Data: mk([]string{"nums"}, Val{T: "ints", A: []Val{VInt(1), VInt(2)}})},
 	)
+	// one component used twice in a page with different slot content
+	ops = append(ops, Op{Kind: "string", Name: "twocards", Data: d}, Op{Kind: "response", Name: "twocards", Data: d})
 	// data-less calls that assign top-level variables (a shared root scope would leak them)
 	ops = append(ops,
 		Op{Kind: "evalstr", Src: "{{ shared = 1 }}{{ shared }}", Data: nil},
@@ -140,6 +142,7 @@ func genC16Tree(r *Rng) (*Scenario, *Tree, []Op) {
 		File{Path: t.path("loopy"), Data: "<ul>@each(x in nums)<li>{{ 100 / x }}</li>@end</ul>\n@for(i = 0; i < lim; i++)[{{ 60 / (k - i) }}]@end", Role: "page"},
 		File{Path: t.path("dotpage"), Data: "<p>{{ user.name }}/{{ user.age }}</p>", Role: "page"},
 		File{Path: t.path("rowpage"), Data: "<p>{{ r.num }}:{{ r.title }}</p>", Role: "page"},
+		File{Path: t.path("twocards"), Data: "@component(\"components/card\", {title: \"A\", n: 1})\n@slot<p>first {{ n1 }}</p>@end\n@slot(\"foot\")<i>f1</i>@end\n@end\n<hr>\n@component(\"components/card\", {title: \"B\", n: 2})\n@slot<p>second {{ s0 }}</p>@end\n@slot(\"foot\")<i>f2</i>@end\n@end\n", Role: "page"},
 		File{Path: t.path("assigner"), Data: "{{ title = \"Oops\" }}{{ count = 7 }}<i>{{ title }}</i>", Role: "page"},
 		File{Path: t.path("reader"), Data: "<u>{{ title }}{{ count }}</u>", Role: "page"},
 		File{Path: t.path("floaty"), Data: "@for(f = 2.0; f > 0.0; f--)[{{ f }}]@end{{ base = 9.5 }}{{ base-- }}|{{ n = 3 }}{{ n++ }}|{{ g = 1.5 }}{{ g++ }}", Role: "page"},
